@@ -395,6 +395,74 @@ func (g *nameGen) variant(n string) string {
 	return n
 }
 
+// nameAncestors returns the proper suffixes of name (its ancestors), nearest first.
+func nameAncestors(name string) []string {
+	var out []string
+	for i := strings.Index(name, "."); i >= 0; {
+		name = name[i+1:]
+		out = append(out, name)
+		i = strings.Index(name, ".")
+	}
+	return out
+}
+
+// multiChild builds a bind whose record name has more than one segment. Either the extra
+// segments are random (the immediate parent of the bound name mostly does not exist), or they
+// spell the path from an existing ancestor record down to another existing record (so the bound
+// name would sit directly below that record, whose owner/restriction the message never
+// mentions), or the dots are misplaced.
+func (g *nameGen) multiChild(recs []nametypes.NameRecord, pn, signer string) (string, string, string) {
+	e, r := g.e, g.r
+	byName := map[string]nametypes.NameRecord{}
+	for _, rec := range recs {
+		byName[rec.Name] = rec
+	}
+	type below struct {
+		rec, anc nametypes.NameRecord
+		mid      string
+	}
+	var cands []below
+	for _, rec := range recs {
+		for _, a := range nameAncestors(rec.Name) {
+			if anc, ok := byName[a]; ok {
+				cands = append(cands, below{rec, anc, strings.TrimSuffix(rec.Name, "."+a)})
+			}
+		}
+	}
+	switch k := r.Intn(100); {
+	case k < 55 && len(cands) > 0:
+		c := Pick(r, cands)
+		pn = c.anc.Name
+		ancOwner, recOwner := e.s(c.anc.Address), e.s(c.rec.Address)
+		switch q := r.Intn(100); {
+		case q < 45:
+			signer = ancOwner
+		case q < 60:
+			signer = recOwner
+		default:
+			signer = g.other(recOwner)
+		}
+		g.out.Count("bind:child=path-below-existing-record")
+		g.out.Count(fmt.Sprintf("bind:child-below:restricted=%v,signer-owns-it=%v,named-parent-admits-signer=%v",
+			c.rec.Restricted, signer == recOwner, !c.anc.Restricted || signer == ancOwner))
+		return g.seg() + "." + c.mid, pn, signer
+	case k < 90:
+		child := g.seg() + "." + g.seg()
+		if r.Chance(30) {
+			child = g.seg() + "." + child
+		}
+		g.out.Count("bind:child=random-segments")
+		return child, pn, signer
+	default:
+		g.out.Count("bind:child=misplaced-dots")
+		d := Pick(r, []string{".", "..", "+.+"})
+		if r.Bool() {
+			return g.seg() + d, pn, signer
+		}
+		return d + g.seg(), pn, signer
+	}
+}
+
 func (g *nameGen) history() {
 	e, r := g.e, g.r
 	e.newHistory()
@@ -446,7 +514,11 @@ func (g *nameGen) history() {
 				g.out.Count("bind:parent=random")
 			}
 			child := g.seg()
-			if len(recs) > 0 && r.Chance(12) {
+			if r.Chance(16) {
+				// a RECORD name that itself has several segments: the bound name's immediate parent is
+				// then not the parent the message names
+				child, pn, signer = g.multiChild(recs, pn, signer)
+			} else if len(recs) > 0 && r.Chance(12) {
 				// aim at a name whose key collides with an existing one
 				if pt := namePartner(r, Pick(r, recs).Name, g.min); pt != "" && strings.Contains(pt, ".") {
 					i := strings.Index(pt, ".")
@@ -497,6 +569,9 @@ func (g *nameGen) history() {
 				if r.Chance(60) {
 					signer = owner
 					g.out.Count("delete:signer=owner")
+				} else if r.Chance(20) {
+					signer = "G" // governance may modify, but not delete
+					g.out.Count("delete:signer=gov")
 				} else {
 					signer = g.other(owner)
 					g.out.Count("delete:signer=stranger")
